@@ -852,7 +852,7 @@ fn check_main(id: &str, tier: Tier) -> ! {
         for i in 0..SLOTS {
             if i == S_MAXLINES {
                 total[i] = total[i].max(r.slots[i]);
-            } else if i > S_PHASE {
+            } else if i > S_PHASE && i < S_KEYTAB {
                 total[i] += r.slots[i];
             }
         }
@@ -1066,6 +1066,13 @@ fn replay_main(path: &str) -> ! {
     std::process::exit(0);
 }
 
+/// A panic of the harness itself is a machinery error (exit 2), never a verdict.
+fn guarded(id: &str, tier: Tier) -> ! {
+    eval::install_quiet_hook(); // prints loudly for panics outside the codec
+    let _ = std::panic::catch_unwind(|| check_main(id, tier));
+    std::process::exit(2)
+}
+
 fn main() {
     let args: Vec<String> = std::env::args().skip(1).collect();
     match args.first().map(|s| s.as_str()) {
@@ -1085,13 +1092,13 @@ fn main() {
                         std::process::exit(2)
                     }
                 },
-                Some("quick") => check_main(&id, Tier::Quick),
-                Some("thorough") => check_main(&id, Tier::Thorough),
+                Some("quick") => guarded(&id, Tier::Quick),
+                Some("thorough") => guarded(&id, Tier::Thorough),
                 other => {
                     let t = other.map(|s| s.to_string()).or_else(|| std::env::var("VERIF_TIER").ok());
                     match t.as_deref() {
-                        Some("thorough") => check_main(&id, Tier::Thorough),
-                        Some("quick") | None => check_main(&id, Tier::Quick),
+                        Some("thorough") => guarded(&id, Tier::Thorough),
+                        Some("quick") | None => guarded(&id, Tier::Quick),
                         Some(x) => {
                             eprintln!("MACHINERY-ERROR: unknown tier '{}'", x);
                             std::process::exit(2)
